@@ -23,7 +23,7 @@ META = {
                    "alone — C09's obligations on its search (every pragma directive is a candidate wherever it stands, the search ends early only at a directive named "
                    "solidity) are inherited.",
     "assumptions": ["items do not mention each other's state-variable names (property quantifier)", "C01: a search rooted at an item stays inside it"],
-    "floors": {"R19.scope": 25, "R19.iso.loop": 40, "R19.version": 1},
+    "floors": {"R19.scope": 25, "R19.iso.loop": 40, "R19.version": 1, "R19.lines": 1},
 }
 
 EXCLUDED = ("SafeMathPre080", "SafeMathPost080")
@@ -172,5 +172,9 @@ def run(ctx, crate):
                                 "(C09's obligations on the pragma search)", "C09",
                                 lambda o: o.rule == "R09.pragma" and o.detail.startswith(("all pragma directives", "other pragmas are skipped", "a version is produced only", "anchor missing")),
                                 example="interface I {} pragma solidity 0.8.17; contract C { function f(uint a) external { require(a > 0, \"zero\"); } }"))
+    # the reported lines are the detector's locations converted one by one: a conversion that carries state from one location to the next (a merge over
+    # sorted offsets, a cursor into the file) lets a finding in one item decide what is reported for another (C02's obligations on the conversion)
+    obs.append(depend.inherited(ctx, crate, "R19.lines", "analyze_for_* x3", "every location is converted to its line on its own (C02's obligations on the line lookup)", "C02",
+                                lambda o: o.rule == "R02.plumb", example="`a / b * c * d` (two findings starting at the same byte) in an earlier item"))
     ctx.analysed.setdefault("C19", {})[crate.ctype] = {"detectors": n_det}
     return obs
